@@ -348,6 +348,14 @@ func (h *H) identOnTable(fam string, pts []Pt, tbl table) {
 	}
 }
 
+// relSens: a relative sensitivity, +Inf where only an absolute one exists.
+func relSens(s Sens) float64 {
+	if s.Abs {
+		return math.Inf(1)
+	}
+	return s.V
+}
+
 func sensOf(row string, col int) float64 {
 	f, err := cols(row, 4)
 	if err != nil {
@@ -415,24 +423,30 @@ func (h *H) identAt(name string, p Pt, tbl table, rank int64) {
 		if x == 0 {
 			return
 		}
-		rm, ok1 := tbl[mkKey("bessel", a-1, x)]
-		r0, ok2 := tbl[mkKey("bessel", a, x)]
-		rp, ok3 := tbl[mkKey("bessel", a+1, x)]
-		if !ok1 || !ok2 || !ok3 || !exactSum(a, 1) || !exactSum(a, -1) {
+		if !exactSum(a, 1) || !exactSum(a, -1) {
+			return
+		}
+		rm, ok1, _ := besselRowAt(tbl, a-1, x)
+		r0, ok2, _ := besselRowAt(tbl, a, x)
+		rp, ok3, _ := besselRowAt(tbl, a+1, x)
+		if !ok1 || !ok2 || !ok3 {
 			return
 		}
 		im := guarded(func() float64 { return sp.BesselI(a-1, x) })
 		i0 := guarded(func() float64 { return sp.BesselI(a, x) })
 		ip := guarded(func() float64 { return sp.BesselI(a+1, x) })
-		sm, s0, s1 := sensOf(rm, 1), sensOf(r0, 1), sensOf(rp, 1)
+		sm, s0, s1 := relSens(rm.sI), relSens(r0.sI), relSens(rp.sI)
 		if !finite(im, i0, ip, sm, s0, s1) || math.Max(math.Abs(im), math.Abs(ip)) > 1e290 || math.Max(math.Abs(im), math.Abs(ip)) < 1e-290 {
 			return
 		}
 		rhs := 2 * a / x * i0
 		tol := C * u * (math.Abs(im)*math.Max(1, sm) + math.Abs(ip)*math.Max(1, s1) + math.Abs(rhs)*(math.Max(1, s0)+2))
+		// a subnormal I(v,x) is known to an absolute 2^-1075 only (gradual underflow), and the
+		// identity multiplies it by 2v/x (x = 1e-23: 1e24)
+		tol += C * math.Abs(2*a/x) * 0x1p-1074
 		r = resid(name, besselRegion(a, x), math.Abs(im-ip-rhs), tol, fmt.Sprintf("I(%v,%v)=%v, I(%v,%v)=%v, I(%v,%v)=%v", a-1, x, im, a, x, i0, a+1, x, ip))
 	case "LogBesselI=log(BesselI)":
-		row, ok := tbl[mkKey("bessel", a, x)]
+		br, ok, _ := besselRowAt(tbl, a, x)
 		if !ok {
 			return
 		}
@@ -442,7 +456,7 @@ func (h *H) identAt(name string, p Pt, tbl table, rank int64) {
 		}
 		l0 := guarded(func() float64 { return sp.LogBesselI(a, x) })
 		w := math.Log(i0)
-		s0 := sensOf(row, 1) // relative sensitivity of I = absolute sensitivity of log I
+		s0 := relSens(br.sI) // relative sensitivity of I = absolute sensitivity of log I
 		if !finite(s0) {
 			return
 		}
@@ -548,12 +562,11 @@ func (h *H) identAt(name string, p Pt, tbl table, rank int64) {
 }
 
 func igamIdent(name string, a, x float64, tbl table) idres {
-	row, ok := tbl[mkKey("igam", a, x)]
-	if !ok || x == 0 {
+	if x == 0 {
 		return idres{skip: true}
 	}
-	r0, err := parseIgam(row)
-	if err != nil {
+	r0, ok, err := igamRowAt(tbl, a, x)
+	if !ok || err != nil {
 		return idres{skip: true}
 	}
 	cxL, cxU := f64(quo(r0.pref, r0.L)), f64(quo(r0.pref, r0.U))
@@ -586,12 +599,11 @@ func igamIdent(name string, a, x float64, tbl table) idres {
 		}
 		return resid(name, reg, math.Abs(l+uu-G), tol, fmt.Sprintf("GammaLower(%v,%v)=%v, GammaUpper=%v, Gamma(a)=%v", a, x, l, uu, G))
 	default:
-		row1, ok := tbl[mkKey("igam", a+1, x)]
-		if !ok || !exactSum(a, 1) {
+		if !exactSum(a, 1) {
 			return idres{skip: true}
 		}
-		r1, err := parseIgam(row1)
-		if err != nil {
+		r1, ok, err := igamRowAt(tbl, a+1, x)
+		if !ok || err != nil {
 			return idres{skip: true}
 		}
 		p0 := guarded(func() float64 { return sp.GammaP(a, x) })
